@@ -32,7 +32,7 @@ EPS = [((192, 0, 2, 50), 4000), ((192, 0, 2, 51), 4001)]
 def bounds(tier):
     k = "K<=2 over the full alphabet and K=3 over the core alphabet (eventgroup 5, counter 0, endpoint 1, two subscribers)"
     if tier == "thorough":
-        k = "K<=2 over the full alphabet, K=3 over the medium alphabet (two eventgroups, one counter/endpoint, two subscribers) and K=4 over the core alphabet without reboot evidence from the second subscriber"
+        k = "K<=2 over the full alphabet, K=3 over the medium alphabet (two eventgroups, one counter/endpoint, two subscribers) and K=4 (infinite TTLs) over the core alphabet without reboot evidence from the second subscriber"
     return {"H06": k + "; plus K=4 histories (infinite TTLs) 'two distinct subscriptions of one subscriber, then two events from {StopSubscribe of either, reboot-only message, Subscribe with/without reboot evidence, service stop, connection loss}'; alphabet: Subscribe/StopSubscribe(eventgroup in 2, counter in {0,1}, endpoint in 2, subscriber in 2, with/without reboot evidence), reboot-only message, stop/start of the service, stop/start of the announcer, connection loss; Subscribe TTL symbolic 1..0xFFFFFF; listener accept/reject symbolic per call; gaps 0..2^40 ticks; delivery iteration/batching symbolic"}
 
 
@@ -110,7 +110,7 @@ def cases(tier, seed):
             if key in seen:
                 continue
             seen.add(key)
-            out.append({"h": "H06", "evs": [list(e) for e in combo], "_w": k})
+            out.append({"h": "H06", "evs": [list(e) for e in combo], "inf": k >= 4, "_w": k})
     return out
 
 
